@@ -90,7 +90,49 @@ def run(out, info, tier, seed):
                                extra_obligations=[('Sched.Inv (invariant preserved by every event)', 'Sched/Inv'),
                                                   ('Sched.Guards / Sched.Final', 'Sched/Final')])
     out.coverage['nontrivial_rule'] = 'the step carrying the malformed reply was actually executed'
+    out.coverage['type_spellings'] = spelling_family(out)
+
+
+SPELLINGS = ['Time_Based', 'Time-based', ' time-based', 'TIME-BASED', 'time_based', 'timebased', 'Hybrid', 'EVENT-BASED']
+
+
+def spelling_one(spelling, j):
+    """a simulator that spells its type unusually either is refused when it is started or is held to the rules of the type it
+    is taken for: a time-based one that replies None at its step number j aborts the run with an error naming it"""
+    from .. import simlib, tracelib
+    canon = spelling.strip().lower().replace('_', '-')
+    typ = canon if canon in ('time-based', 'hybrid', 'event-based') else 'time-based'
+    if typ != 'time-based': bad = {f'{j},0': ['step', 'soon']}          # (for the other types: a reply that is not a time at all)
+    else: bad = {f'{j},0': ['step', None]}
+    beh0 = {'type': typ, 'meta_type': spelling, 'step_size': 1, 'default_output': [None, ['po'] if typ != 'event-based' else ['eo']], 'self_steps': {str(t): t + 1 for t in range(6)}, 'bad': bad}
+    case = dict(n=2, types=[typ, 'time-based'], grp=[[], []], edges=[dict(a=0, b=1, sa='po' if typ != 'event-based' else 'eo', da='i', kind='p', shift=0, init=False)],
+                until=5, beh=[beh0, {'type': 'time-based', 'step_size': 1, 'default_output': [None, ['po']]}], init=[[0, 0]] if typ == 'event-based' else [], maxloop=100)
+    r = simlib.run_case(case, strategy='oldest', seed=0)
+    if r.build_error is not None: return None                 # refused at start / connect
+    kind, who = tracelib.classify_outcome(r)
+    if kind == 'reply' and who == 'S0': return None
+    if kind.startswith('other:') and 'S0' in r.outcome: return None      # (a different wording that still names the offender)
+    steps = [l[2][0] for l in r.log if l[0] == 'BEGIN' and l[1] == 'S0']
+    return dict(kind='spelling', spelling=spelling, step_index=j, observed=[f"simulator S0 announces type {spelling!r}, is started, and its malformed reply {bad} at step {j} ends in: {r.outcome[:120]} (S0 stepped at {steps})"])
+
+
+def spelling_family(out):
+    n = 0
+    for sp in SPELLINGS:
+        for j in (0, 2):
+            n += 1
+            v = spelling_one(sp, j)
+            if v:
+                out.violations.append(v); return n
+    return n
 
 
 def replay(path, out):
+    import json
+    r = json.load(open(path))
+    if r.get('kind') == 'spelling':
+        v = spelling_one(r['spelling'], r['step_index'])
+        print(v['observed'] if v else 'refused at start, or the run aborted naming the offender')
+        if v: print(f'VIOLATION property=C13 replay={path}')
+        return 1 if v else 0
     return sched_check.replay_trace(path, 'C13', monitors.P_C13, KINDS)
